@@ -391,7 +391,8 @@ _targets_c16_core = targets
 
 def targets():      # noqa: F811
     from . import c12
-    return _targets_c16_core() + [target_names(), c12.target_fit_identifiers()]
+    # by-name (not positional) transfer of fitted values between lmfit and the circuit: a value reported under a name is that parameter's
+    return _targets_c16_core() + [target_names(), c12.target_fit_identifiers(), c12.target_from_lmfit(), c12.target_to_lmfit()]
 
 
 _targets_before_observers = targets
